@@ -50,10 +50,17 @@ var (
 	nextID        int
 )
 
+// AcceptFailures is the number of accept calls that still fail transiently (set by the harness from the plan);
+// AcceptFailed counts the failures that happened.
+var AcceptFailures, AcceptFailed int
+
+var errTooManyFiles = errors.New("accept4: too many open files")
+
 // Reset clears all simulated network state (once per run, inside the bubble).
 //
 //go:norace
 func Reset() {
+	AcceptFailures, AcceptFailed = 0, 0
 	listeners = nil
 	LastAccepted = nil
 	OnServerWrite, OnServerClose, OnServerRead = nil, nil, nil
@@ -84,6 +91,13 @@ func (l *TCPListener) AcceptTCP() (*TCPConn, error) {
 	simrt.Yield("net.accept:pre")
 	for {
 		simrt.RaceOff()
+		if len(l.backlog) > 0 && AcceptFailures > 0 {
+			// a transient accept failure (EMFILE-like): the pending connection stays in the backlog
+			AcceptFailures--
+			AcceptFailed++
+			simrt.RaceOn()
+			return nil, &OpError{Op: "accept", Net: "tcp", Err: errTooManyFiles}
+		}
 		if len(l.backlog) > 0 {
 			c := l.backlog[0]
 			l.backlog = l.backlog[1:]
